@@ -193,6 +193,17 @@ def moments_ops(S, N, bs, rep):
         tril = d.scale_tril
         ent = d.entropy()
         prec = d.precision_matrix
+        # the factor is cached on d now: scaled copies (negative scalars too) must not inherit a signed factor
+        val = S.randn(*bs, N)
+        Vs = S.sym_tensor(val, "w")
+        tril_neg = (d * -1).scale_tril
+        tril_half = (d * -0.5).scale_tril
+        factor_ok = bool((tril_half.diagonal(dim1=-1, dim2=-2) > 0).all())
+        lp_neg = lp_div = None
+        if factor_ok:  # (otherwise log_prob takes the log of a negative number: reported through the factor itself below)
+            with gpytorch.settings.fast_computations(log_prob=False):
+                lp_neg = (d * -0.5).log_prob(val)
+                lp_div = (d / -2).log_prob(val)
     diag = np.diagonal(Cs, axis1=-2, axis2=-1)
     # scale_tril is THE lower-triangular factor with positive diagonal (unique): the declared factor G
     S.prove_eq(tril, Gs, "scale_tril = lower Cholesky factor of the covariance")
@@ -204,6 +215,17 @@ def moments_ops(S, N, bs, rep):
     for b in np.ndindex(*bs):
         prec_ref[b] = spd_solve(Gs[b], eye(N))
     S.prove_eq(prec, prec_ref, "precision_matrix = covariance^-1")
+    S.prove_eq(tril_neg, Gs, "(d * -1).scale_tril after d's factor was cached = the same lower factor (positive diagonal)")
+    half = Sym.const(0.5)
+    lp_ref = np.empty(bs, dtype=object)
+    for b in np.ndindex(*bs):
+        lp_ref[b] = _logpdf(Gs[b] * half, Ms[b] * Sym.const(-0.5), Vs[b])
+    lp_ref = lp_ref if bs else np.array(lp_ref[()], dtype=object).reshape(())
+    S.prove_eq(tril_half, Gs * half, "(d * -0.5).scale_tril after d's factor was cached = G / 2 (positive diagonal)")
+    if lp_neg is None:
+        return
+    S.prove_eq(lp_neg, lp_ref, "(d * -0.5).log_prob on the Cholesky path after d's factor was cached = log N(. ; -m/2, C/4)")
+    S.prove_eq(lp_div, lp_ref, "(d / -2).log_prob on the Cholesky path after d's factor was cached = log N(. ; -m/2, C/4)")
     S.prove_eq(var, diag, "variance = diag")
     S.prove_eq(cm, Cs, "covariance_matrix")
     StdS = as_sym_arr(SH.get(std))
